@@ -46,7 +46,7 @@ func registerExtras() {
 	propertyRules["C07"] = append(propertyRules["C07"], rulePhaseProgress)
 	// the example runs watch-only nodes and a blocked validator in one process: a panic of the library on a watch-only
 	// node (index -1) or a payload broadcast by it stops / disturbs the whole simulation — seed C17r3-3
-	propertyRules["C17"] = append(propertyRules["C17"], ruleIdx, ruleGSilent, rulePhaseProgress, rulePool, ruleTypedNil)
+	propertyRules["C17"] = append(propertyRules["C17"], ruleIdx, ruleGSilent, rulePhaseProgress, rulePool, ruleTypedNil, ruleCacheAgree)
 	propertyRules["C11"] = append(propertyRules["C11"], ruleTypedNil)
 	// "the view's designated primary" is what GetPrimaryIndex computes: admission of proposals (C04, C11) rests on it
 	propertyRules["C11"] = append(propertyRules["C11"], ruleArithPrimary, rulePrimaryField)
